@@ -287,11 +287,12 @@ func fillerTypes(e exp) []*doc.Node {
 }
 
 func runC04(c *fw.Ctx) {
+	// the check's own generator first: the time cap, if it cuts, cuts the documents of the others
+	genC04(c)
 	if refcatHook != nil {
 		refcatHook(c, "C04")
 		refcatCross(c, "C04", genC13, genC19)
 	}
-	genC04(c)
 }
 
 // genC04 is the document generator of C04 with its own judgement (or the tap's).
